@@ -1,6 +1,8 @@
 """C02 - compiled routing equals the DSL's if / else-if / else and operator semantics."""
 import itertools
 
+from hypothesis import strategies as st
+
 from .. import common, gen, refinterp, runner, sut
 from .. import model as M
 
@@ -42,6 +44,15 @@ def judge(case):
         outcomes.append(refinterp.run(prog, env))
         if msg:
             viol.append("%s | inputs=%r | %s" % (msg, env, text))
+        if sum(1 for v in env.values() if isinstance(v, float) and v != v) >= 2:
+            # the very same NaN object in several fields (one missing measurement copied into two columns): == is still false,
+            # although `is` - and therefore membership in a tuple - would say otherwise
+            nan = float("nan")
+            env2 = {k: (nan if isinstance(v, float) and v != v else v) for k, v in env.items()}
+            msg = common.check_routing(prog, env2, sut.call(ev, env2))
+            if msg:
+                viol.append("%s | inputs=%r (one NaN object shared by the fields) | %s" % (msg, env2, text))
+                tags.append("shared-nan-object")
     if viol and noise_tags:
         common.reset_after_violation()
     nontrivial = prog["body"]["k"] == "if" and len(set(outcomes)) >= 2
@@ -54,8 +65,64 @@ def _after(case):
     return " | compiled right after the unrelated text %r" % case["noise"] if case.get("noise") else ""
 
 
+@st.composite
+def guarded_cases(draw):
+    """generated programs evaluated on inputs in which ONE field has a value of the wrong type (a word where a number belongs,
+    a number where a word belongs): whenever the reference - Python's left-to-right, short-circuiting and / or - reaches a
+    verdict without touching the mistyped value, so must the evaluator"""
+    c = draw(gen.program_cases(n_inputs=(6, 10), max_depth=2, pred_depth=3, ops=[">", "<", ">=", "<=", "==", "!=", "in", "not in"]))
+    typed = [f for f, cl in c["classes"].items() if cl in ("num", "str")]
+    if typed:
+        out = []
+        for enc in c["inputs"]:
+            f = draw(st.sampled_from(typed))
+            wrong = draw(st.sampled_from(["silver", "", None, (1, 2)])) if c["classes"][f] == "num" else draw(st.sampled_from([7, 0.5, None, (1, 2)]))
+            out.append(dict(enc, **{f: M.enc(wrong)}))
+        c["inputs"] = c["inputs"][:2] + out
+    c["guarded"] = True
+    return c
+
+
+def guarded_fixed():
+    I, L, S = M.ident, M.lit_int, M.lit_str
+    R = lambda i: M.ret([(S("r%d" % i), "1")])  # noqa: E731
+    num = M.cmp_(I("kind"), "==", S("num"))
+    gt, lt, ne = M.cmp_(I("value"), ">", L("5")), M.cmp_(I("value"), "<", L("100")), M.cmp_(I("value"), "!=", L("7"))
+    preds = [M.and_(M.and_(num, gt), lt), M.and_(num, M.and_(gt, lt)), M.and_(M.and_(M.and_(num, gt), lt), ne),
+             M.or_(M.or_(M.not_(num), gt), lt), M.or_(M.not_(num), M.or_(lt, gt)), M.and_(num, M.or_(gt, lt)),
+             M.or_(M.and_(num, gt), M.and_(M.not_(num), M.cmp_(I("value"), "==", S("gold")))),
+             M.and_(M.and_(M.and_(M.and_(num, gt), lt), ne), M.cmp_(I("value"), ">=", L("6")))]
+    envs = [{"kind": k, "value": v} for k in ("num", "text", "") for v in (6, 50, 500, 7, "silver", "gold", None)]
+    for p in preds:
+        yield {"prog": M.program("e", M.if_([(p, R(0))], R(1))), "classes": {}, "inputs": [M.enc_inputs(e) for e in envs], "guarded": True}
+        yield {"prog": M.program("e", M.if_([(p, R(0)), (M.not_(num), R(1))], None)), "classes": {}, "inputs": [M.enc_inputs(e) for e in envs], "guarded": True}
+
+
+def judge_guarded(case):
+    prog = case["prog"]
+    text = M.render(prog)
+    res = sut.compile_text(text)
+    tags = ["guarded-mistyped"]
+    if res[0] != "ok":
+        return {"viol": ["grammatical experiment does not compile: %s: %s | %s" % (res[1], res[2], text)], "nontrivial": False, "tags": tags}
+    viol, judged = [], 0
+    for enc in case["inputs"]:
+        env = M.dec_inputs(enc)
+        try:
+            refinterp.run(prog, env)
+        except TypeError:
+            continue  # the reference itself has to compare the mistyped value: outside the property
+        judged += 1
+        msg = common.check_routing(prog, env, sut.call(res[1], env))
+        if msg:
+            viol.append("%s | inputs=%r | %s" % (msg, env, text))
+    return {"viol": viol[:4], "nontrivial": judged > 0, "tags": tags, "key": [text, case["inputs"]], "sample": {"text": text[:300], "judged_inputs": judged}}
+
+
 def judge_case(record):
     c = record["case"]
+    if c.get("guarded"):
+        return judge_guarded(c)["viol"]
     if "pick" in c:
         from . import c11
 
@@ -112,6 +179,15 @@ def catalogue():
         yield _case(M.program("e", body), [{"x": (1, 2)}, {"x": 3}, {"x": 1}, {"x": [1, 2]}, {"x": (1, 2, 3)}])
         body = M.if_([(M.cmp_(M.tup([M.lit_int("1"), M.lit_int("2")]), op, t), R(0))], R(1))
         yield _case(M.program("e", body), [{}])
+    # 1b. chains of == / != between fields, asked about NaNs (also one NaN object shared by several fields)
+    nan = float("nan")
+    ab, ac, ad = (M.cmp_(M.ident("a"), "==", M.ident(n)) for n in "bcd")
+    for p in (M.or_(ab, ac), M.or_(M.or_(ab, ac), ad), M.and_(M.cmp_(M.ident("a"), "!=", M.ident("b")), M.cmp_(M.ident("a"), "!=", M.ident("c"))),
+              M.cmp_(M.ident("a"), "==", M.ident("a")), M.cmp_(M.ident("a"), "in", M.tup([M.ident("b"), M.ident("c")])),
+              M.or_(M.cmp_(M.ident("a"), "==", M.lit_int("1")), M.cmp_(M.ident("a"), "==", M.ident("b")))):
+        yield _case(M.program("e", M.if_([(p, R(0))], R(1))),
+                    [{"a": nan, "b": nan, "c": 1, "d": nan}, {"a": nan, "b": 2, "c": nan, "d": 0}, {"a": 1, "b": nan, "c": 1, "d": nan},
+                     {"a": nan, "b": nan, "c": nan, "d": nan}, {"a": 2, "b": 2, "c": 3, "d": 4}, {"a": 5, "b": 2, "c": 3, "d": 4}])
     # 2. boolean trees of depth <= 2 over atoms a,b,c (each atom: field == 1) x all truth assignments
     atoms = [M.cmp_(M.ident(n), "==", M.lit_int("1")) for n in "abc"]
     envs = [dict(zip("abc", bits)) for bits in itertools.product([0, 1], repeat=3)]
@@ -312,6 +388,13 @@ def run(ctx, rec):
         if rec.violations:
             return
     runner.hyp_run(ctx, rec, "neighbour-programs-through-recompile", c11.neighbour_cases(), c11.judge_neighbours, ctx.n(100, 600))
+    if rec.violations:
+        return
+    if ctx.shard == 0:
+        runner.direct_run(ctx, rec, "guarded-mistyped-fixed", guarded_fixed(), judge_guarded)
+        if rec.violations:
+            return
+    runner.hyp_run(ctx, rec, "guarded-mistyped", guarded_cases(), judge_guarded, ctx.n(150, 800))
     if rec.violations:
         return
     runner.hyp_run(ctx, rec, "generated-deep",
